@@ -42,6 +42,7 @@ type Program struct {
 	// A function that was only renamed keeps its identity in every key and anchor.
 	alias   map[string]FuncSig
 	Renames []string
+	fresh   map[string]bool // functions of the tree that the reference snapshot does not have (and that are not renames)
 }
 
 // SnapshotPath names the reference list of module functions (funcs.json); empty: no rename detection.
@@ -223,8 +224,28 @@ func (p *Program) detectRenames() {
 		}
 	}
 	sort.Strings(p.Renames)
+	p.fresh = map[string]bool{}
+	for _, fs := range fresh {
+		for _, f := range fs {
+			if _, renamed := p.alias[key(f)]; !renamed {
+				p.fresh[key(f)] = true
+			}
+		}
+	}
 }
 
+// IsNewFunc: the function (or the function a closure belongs to) is not in the reference snapshot and is not a
+// renamed one: it was added to the tree, typically a helper extracted from an existing function.
+func (p *Program) IsNewFunc(f *ssa.Function) bool {
+	for f != nil && f.Parent() != nil {
+		f = f.Parent()
+	}
+	if f == nil {
+		return false
+	}
+	fs, ok := p.sigOf(f)
+	return ok && p.fresh[fs.Pkg+"\x00"+fs.Recv+"\x00"+fs.Name]
+}
 
 // Load type-checks the module in dir and builds SSA. With deps=true the
 // dependencies are loaded from source too (thorough tier).
